@@ -52,24 +52,34 @@ type c18Knobs struct {
 
 // c18Spec is what the foreign IdP signs.
 type c18Spec struct {
-	Root         string  `json:"root,omitempty"` // "" = samlp:LogoutResponse | LogoutRequest | Response | wrong-ns | no-ns
-	ID           string  `json:"id"`
-	InResponseTo string  `json:"irt,omitempty"`
-	IssueMs      int64   `json:"issue_ms"`               // relative to the issuing moment
-	IssueMode    string  `json:"issue_mode,omitempty"`   // "" | absent | empty | garbage | ancient-wrap (delivery time - 2^64 ns - 30 s: where 64-bit nanosecond arithmetic wraps round to "30 s ago") | year-1700 | year-1000 | year-0001
-	IssueRefMs   int64   `json:"issue_ref_ms,omitempty"` // ancient-wrap: the delivery delay the instant is computed against
-	TimeForm     int     `json:"time_form,omitempty"`
-	Destination  *string `json:"destination"`             // nil: attribute absent
-	Issuer       *string `json:"issuer"`                  // nil: element absent
-	IssuerFormat string  `json:"issuer_format,omitempty"` // "": nameid-format:entity; the Format an Issuer element carries is not a second name for anybody
-	IssuerSplit  int     `json:"issuer_split,omitempty"`  // >0: an XML comment is placed inside the Issuer text at this offset (text content unchanged)
-	Status       *string `json:"status"`                  // nil: Status element absent
-	StatusNested string  `json:"status_nested,omitempty"`
-	NoStatusCode bool    `json:"no_status_code,omitempty"` // Status element without StatusCode
-	SignKey      int     `json:"sign_key"`                 // index into rsaKeys; -1: unsigned
-	SigMethod    string  `json:"sig_method,omitempty"`
-	SigPlace     string  `json:"sig_place,omitempty"`      // "" = after Issuer (schema) | last | first
-	Pretty       bool    `json:"pretty_printed,omitempty"` // line breaks and indentation between child elements, applied before signing
+	Root         string      `json:"root,omitempty"` // "" = samlp:LogoutResponse | LogoutRequest | Response | wrong-ns | no-ns
+	ID           string      `json:"id"`
+	InResponseTo string      `json:"irt,omitempty"`
+	IssueMs      int64       `json:"issue_ms"`               // relative to the issuing moment
+	IssueMode    string      `json:"issue_mode,omitempty"`   // "" | absent | empty | garbage | ancient-wrap (delivery time - 2^64 ns - 30 s: where 64-bit nanosecond arithmetic wraps round to "30 s ago") | year-1700 | year-1000 | year-0001
+	IssueRefMs   int64       `json:"issue_ref_ms,omitempty"` // ancient-wrap: the delivery delay the instant is computed against
+	TimeForm     int         `json:"time_form,omitempty"`
+	Destination  *string     `json:"destination"`             // nil: attribute absent
+	Issuer       *string     `json:"issuer"`                  // nil: element absent
+	IssuerFormat string      `json:"issuer_format,omitempty"` // "": nameid-format:entity; the Format an Issuer element carries is not a second name for anybody
+	IssuerSplit  int         `json:"issuer_split,omitempty"`  // >0: an XML comment is placed inside the Issuer text at this offset (text content unchanged)
+	Status       *string     `json:"status"`                  // nil: Status element absent
+	StatusNested string      `json:"status_nested,omitempty"`
+	NoStatusCode bool        `json:"no_status_code,omitempty"` // Status element without StatusCode
+	SignKey      int         `json:"sign_key"`                 // index into rsaKeys; -1: unsigned
+	SigMethod    string      `json:"sig_method,omitempty"`
+	SigPlace     string      `json:"sig_place,omitempty"`      // "" = after Issuer (schema) | last | first
+	Pretty       bool        `json:"pretty_printed,omitempty"` // line breaks and indentation between child elements, applied before signing
+	Foreign      *c18Foreign `json:"foreign_child,omitempty"`  // an extension element of another namespace among the root's children, part of what the IdP signs
+}
+
+// c18Foreign is a child element of the root in a namespace that is neither SAML's nor XML-DSig's, whose local name is one the
+// SP's checks look for. It is not a signature, an issuer or a status of the response: it only shares their local names.
+type c18Foreign struct {
+	Name   string `json:"name"`             // local name: Signature | Issuer | Status | KeyInfo
+	Inner  string `json:"inner,omitempty"`  // "" empty | text | keyinfo-text | keyinfo-keyvalue | keyinfo-cert (the trusted certificate) | right-issuer | success
+	At     string `json:"at,omitempty"`     // "" last | first | before-sig | after-sig | after-issuer
+	Prefix string `json:"prefix,omitempty"` // "" = x | ds (the prefix XML-DSig elements use, bound to the foreign namespace on this element) | none (default namespace declared on the element)
 }
 
 // c18Op is one edit by Mallory on the signed document in flight.
@@ -78,6 +88,8 @@ type c18Op struct {
 	Arg string `json:"arg,omitempty"`
 	Val string `json:"val,omitempty"`
 	Ms  int64  `json:"ms,omitempty"`
+	// add-foreign-child: the element added
+	Foreign *c18Foreign `json:"foreign,omitempty"`
 }
 
 // c18Hit is one byte-level corruption: position in parts per million of the document length.
@@ -108,6 +120,8 @@ const (
 	c18OtherTenant = "https://idp.example.com/tenant-b/metadata"
 	c18FPAlg       = "http://www.w3.org/2001/04/xmlenc#sha256"
 	c18ProtoNS     = "urn:oasis:names:tc:SAML:2.0:protocol"
+	c18DsigNS      = "http://www.w3.org/2000/09/xmldsig#"
+	c18VendorNS    = "urn:example:vendor-extension"
 )
 
 func c18SLO(k c18Knobs) string { return k.SPBase + "/saml/slo" }
@@ -225,7 +239,14 @@ func c18GenStep(g *Rng, k c18Knobs, i int, tier string) c18Step {
 			st.Intent = append(st.Intent, "freshness:edge")
 		}
 	}
-	if g.Bool(0.08) {
+	pKeyInfo := 0.08
+	if g.Bool(0.05) {
+		// benign: the IdP's response carries an extension element of its own namespace among the root's children, and signs it with the rest
+		spec.Foreign = c18GenForeign(g, true)
+		st.Intent = append(st.Intent, "benign:foreign-namesake-signed:"+spec.Foreign.label())
+		pKeyInfo = 0.4 // ... often together with a Signature that does not name its certificate
+	}
+	if g.Bool(pKeyInfo) {
 		// benign: the certificate is dropped from KeyInfo in flight (KeyInfo is not signed content)
 		op := Pick(g, "keyinfo-none", "keyinfo-keyvalue", "keyinfo-add-cert", "keyinfo-x509ref", "keyinfo-x509ref", "signature-object-rebinds-prefix", "signature-object-rebinds-prefix")
 		if op == "keyinfo-add-cert" {
@@ -289,13 +310,49 @@ func c18ValidSpec(g *Rng, k c18Knobs, i int, delay int64) c18Spec {
 	return s
 }
 
+// c18GenForeign draws an extension element of a foreign namespace whose local name (and the local names inside it) are those the
+// SP's checks look for in the response.
+func c18GenForeign(g *Rng, signed bool) *c18Foreign {
+	f := &c18Foreign{Name: []string{"Signature", "Issuer", "Status", "KeyInfo"}[g.PickW(60, 15, 15, 10)]}
+	switch f.Name {
+	case "Signature":
+		f.Inner = []string{"", "text", "keyinfo-text", "keyinfo-keyvalue", "keyinfo-cert"}[g.PickW(10, 10, 35, 25, 20)]
+	case "Issuer":
+		f.Inner = "right-issuer"
+	case "Status":
+		f.Inner = "success"
+	default:
+		f.Inner = Pick(g, "text", "keyinfo-cert")
+	}
+	if signed {
+		f.At = Pick(g, "first", "after-issuer", "after-issuer", "")
+	} else {
+		f.At = Pick(g, "first", "before-sig", "after-sig", "after-sig", "")
+	}
+	f.Prefix = []string{"", "ds", "none"}[g.PickW(6, 2, 2)]
+	return f
+}
+
+func (f *c18Foreign) label() string {
+	return fmt.Sprintf("%s(%s)@%s", f.Name, firstNonEmpty(f.Inner, "empty"), firstNonEmpty(f.At, "last"))
+}
+
 // c18Defect breaks one clause of the statement.
 func c18Defect(g *Rng, k c18Knobs, st *c18Step, s *c18Spec, dim string) {
 	slo := c18SLO(k)
 	switch dim {
 	case "signature":
-		how := g.PickW(10, 10, 6, 5, 5, 5, 12, 10, 14, 4, 4, 4, 4)
+		how := g.PickW(10, 10, 6, 5, 5, 5, 12, 10, 14, 4, 4, 4, 4, 12)
 		switch how {
+		case 13:
+			// an element of another namespace that shares the local name of something the checks look for is added to the root in
+			// flight (anybody can do that; the signed content changes). Half of the time the Signature no longer names a certificate either.
+			if g.Bool(0.5) {
+				st.Wire = append(st.Wire, c18Op{Op: Pick(g, "keyinfo-none", "keyinfo-keyvalue", "keyinfo-x509ref")})
+			}
+			f := c18GenForeign(g, false)
+			st.Wire = append(st.Wire, c18Op{Op: "add-foreign-child", Foreign: f})
+			st.Intent = append(st.Intent, "signature:foreign-namesake-added:"+f.label())
 		case 0:
 			s.SignKey = -1
 			st.Intent = append(st.Intent, "signature:never-signed")
@@ -554,12 +611,23 @@ type c18Model struct {
 	edited     bool // the signed content as delivered differs from what was signed
 	structural bool // elements were added, moved or removed after signing (never undone by a later op)
 	signed     c18Content
-	corruptSV  bool   // SignatureValue damaged
-	corruptDV  bool   // DigestValue damaged
-	keyInfo    string // own | none | keyvalue | cert:<j>
-	noDoc      bool   // the input is not built from a response document at all
-	noise      bool   // byte-level damage at drawn positions: may or may not hit meaningful bytes
-	effective  []bool // per wire op: did it change the document
+	corruptSV  bool          // SignatureValue damaged
+	corruptDV  bool          // DigestValue damaged
+	keyInfo    string        // own | none | keyvalue | cert:<j>
+	noDoc      bool          // the input is not built from a response document at all
+	noise      bool          // byte-level damage at drawn positions: may or may not hit meaningful bytes
+	effective  []bool        // per wire op: did it change the document
+	foreign    []*c18Foreign // elements of a foreign namespace among the root's children (signed with the rest, or added in flight)
+}
+
+// namesakeWithKeyInfo: a foreign element called Signature that has a child called KeyInfo naming no certificate is among the root's children.
+func (m *c18Model) namesakeWithKeyInfo() bool {
+	for _, f := range m.foreign {
+		if f.Name == "Signature" && (f.Inner == "keyinfo-text" || f.Inner == "keyinfo-keyvalue") {
+			return true
+		}
+	}
+	return false
 }
 
 func c18Eq(a *string, b string) bool { return a != nil && *a == b }
@@ -646,6 +714,11 @@ func c18Run(k c18Knobs, st *c18Step) *c18Model {
 		attrs[2] = sp(s.InResponseTo)
 	}
 	m.signed = m.content(attrs)
+	if s.Foreign != nil {
+		// part of what the IdP signs; says nothing about any clause of the statement (it is neither the response's signature, nor its
+		// issuer, nor its status: those are elements of the XML-DSig and SAML namespaces)
+		m.foreign = append(m.foreign, s.Foreign)
+	}
 	for _, op := range st.Wire {
 		eff := false
 		switch op.Op {
@@ -698,6 +771,12 @@ func c18Run(k c18Knobs, st *c18Step) *c18Model {
 			}
 		case "add-child":
 			m.structural, eff = true, true
+		case "add-foreign-child":
+			// not a Signature of the response (sigDirect counts XML-DSig elements); the signed content is no longer what was signed
+			if op.Foreign != nil {
+				m.foreign = append(m.foreign, op.Foreign)
+				m.structural, eff = true, true
+			}
 		case "add-sig":
 			m.sigDirect++
 			m.structural, eff = true, true
@@ -834,18 +913,81 @@ func (m *c18Model) verdict(now int64) (expect string, bad []string, open []strin
 
 // ---------------------------------------------------------------- foreign IdP + Mallory (builder)
 
+// c18FindSig returns the first XML-DSig Signature among the children of root.
 func c18FindSig(root *etree.Element) *etree.Element {
 	for _, c := range root.ChildElements() {
-		if c.Tag == "Signature" {
+		if c.Tag == "Signature" && c.NamespaceURI() == c18DsigNS {
 			return c
 		}
 	}
 	return nil
 }
 
+// c18ForeignElement renders f: every element in it belongs to the vendor namespace.
+func c18ForeignElement(k c18Knobs, f *c18Foreign) *etree.Element {
+	pfx := firstNonEmpty(f.Prefix, "x")
+	q := func(local string) string { return pfx + ":" + local }
+	var x *etree.Element
+	if pfx == "none" {
+		q = func(local string) string { return local }
+		x = etree.NewElement(f.Name)
+		x.CreateAttr("xmlns", c18VendorNS)
+	} else {
+		x = etree.NewElement(q(f.Name))
+		x.CreateAttr("xmlns:"+pfx, c18VendorNS)
+	}
+	switch f.Inner {
+	case "text":
+		x.SetText("device-7")
+	case "keyinfo-text":
+		x.CreateElement(q("KeyInfo")).SetText("device-7")
+	case "keyinfo-keyvalue":
+		rk := x.CreateElement(q("KeyInfo")).CreateElement(q("KeyValue")).CreateElement(q("RSAKeyValue"))
+		rk.CreateElement(q("Modulus")).SetText("AQAB")
+		rk.CreateElement(q("Exponent")).SetText("AQAB")
+	case "keyinfo-cert":
+		host := x
+		if f.Name != "KeyInfo" {
+			host = x.CreateElement(q("KeyInfo"))
+		}
+		host.CreateElement(q("X509Data")).CreateElement(q("X509Certificate")).SetText(rsaKeys[0].CertB64())
+	case "right-issuer":
+		x.SetText(k.IDPEntity)
+	case "success":
+		x.CreateElement(q("StatusCode")).CreateAttr("Value", saml.StatusSuccess)
+	}
+	return x
+}
+
+// c18PlaceForeign inserts x among the children of root.
+func c18PlaceForeign(root, x *etree.Element, at string) {
+	idx := -1
+	switch at {
+	case "first":
+		idx = 0
+	case "before-sig":
+		if sig := c18FindSig(root); sig != nil {
+			idx = sig.Index()
+		}
+	case "after-sig":
+		if sig := c18FindSig(root); sig != nil {
+			idx = sig.Index() + 1
+		}
+	case "after-issuer":
+		if is := c18Child(root, "Issuer"); is != nil {
+			idx = is.Index() + 1
+		}
+	}
+	if idx < 0 {
+		root.AddChild(x)
+	} else {
+		root.InsertChildAt(idx, x)
+	}
+}
+
 func c18Child(root *etree.Element, tag string) *etree.Element {
 	for _, c := range root.ChildElements() {
-		if c.Tag == tag {
+		if c.Tag == tag && c.NamespaceURI() != c18VendorNS {
 			return c
 		}
 	}
@@ -926,6 +1068,9 @@ func c18Build(k c18Knobs, st *c18Step, m *c18Model, t0 time.Time) []byte {
 		el.CreateAttr("xmlns:samlp", c18ProtoNS+":x")
 	case "no-ns":
 		el.Space = ""
+	}
+	if s.Foreign != nil {
+		c18PlaceForeign(el, c18ForeignElement(k, s.Foreign), s.Foreign.At)
 	}
 	if s.Pretty && s.IssuerSplit == 0 {
 		el.IndentWithSettings(&etree.IndentSettings{Spaces: 2})
@@ -1021,6 +1166,8 @@ func c18Build(k c18Knobs, st *c18Step, m *c18Model, t0 time.Time) []byte {
 			} else {
 				root.AddChild(x)
 			}
+		case "add-foreign-child":
+			c18PlaceForeign(root, c18ForeignElement(k, op.Foreign), op.Foreign.At)
 		case "add-sig":
 			var x *etree.Element
 			if op.Arg == "copy" && sig != nil {
@@ -1397,6 +1544,17 @@ func execLogout(t *testing.T, p *Plan) *Result {
 		if len(bad) == 1 && bad[0] == "issuer" && m.issuer == nil && st.Shape == "logout-response" {
 			res.probe("signed-without-issuer")
 		}
+		for _, f := range m.foreign {
+			res.probe("foreign-namesake:" + f.Name)
+		}
+		if len(m.foreign) > 0 && st.Shape == "logout-response" {
+			if m.sigDirect >= 1 && m.keyInfo != "own" && !strings.HasPrefix(m.keyInfo, "cert:") && m.namesakeWithKeyInfo() {
+				res.probe("foreign-signature-namesake-with-keyinfo-beside-signature-naming-no-certificate")
+			}
+			if expect == "VALID" {
+				res.probe("valid-with-signed-foreign-namesake")
+			}
+		}
 
 		// ---- decision
 		if pan != nil {
@@ -1415,7 +1573,12 @@ func execLogout(t *testing.T, p *Plan) *Result {
 		case "VALID":
 			if err != nil {
 				sig := "C18/rejected-valid/valid-response"
-				if m.keyInfo != "own" {
+				if len(m.foreign) > 0 {
+					sig = "C18/rejected-valid/foreign-namesake-among-the-signed-children"
+					if m.keyInfo != "own" {
+						sig += "+no-certificate-in-keyinfo"
+					}
+				} else if m.keyInfo != "own" {
 					sig = "C18/rejected-valid/no-certificate-in-keyinfo"
 					if k.Trust == "md2" {
 						sig += "-with-several-trusted-certs"
@@ -1599,7 +1762,7 @@ func simplifyLogout(p *Plan) []*Plan {
 func init() {
 	register(&Profile{
 		ID: "C18", Name: "logout", Level: "exploration",
-		Rule: "each run: 1-3 deliveries to a real ServiceProvider (trust: metadata with 1 or 2 signing certs, +encryption-only cert, pinned cert, fingerprint; MaxIssueDelay/MaxClockSkew, SP base URL, IdP entity ID drawn per run) through ValidateLogoutResponseForm / Redirect / Request(GET|POST) of a foreign-IdP LogoutResponse that starts valid and gets 0-4 defects drawn from {signature: never signed, untrusted key, encryption-only key, untrusted key naming the trusted cert, stripped, moved under a child, field/attribute/child edited after signing, second Signature, corrupted value; destination: absent, empty, ACS URL, other SP, prefix/truncation/query/slash/host variants; issuer: absent, empty, other tenant, near misses, name extended behind an XML comment; freshness: age at MaxIssueDelay -1ms/+1ms/half/x10/far/edge via delivery delay on the bubble clock, IssueInstant absent/empty/garbage, re-dated on the wire; status: absent, empty, Requester, Responder, case/suffix near misses, nested Success; other root element} plus ~10% malformed inputs (rootless, empty, non-XML, truncated XML/base64, wrong encoding for the entry point, 1-3 byte substitutions/deletions/insertions in a valid response, deflate bomb 50-300 MiB); non-trivial = a LogoutResponse document violating at most one clause of the statement (the oracle has to discriminate on exactly that clause); distinct = distinct abstract event log (entry, trust, signer, lexical form, defect labels, violated clauses, expectation, outcome); KeyInfo may carry further certificates beside the signer's (the trusted one beside an untrusted signer's, a stranger's beside the trusted signer's); the host time zone differs per run",
+		Rule: "each run: 1-3 deliveries to a real ServiceProvider (trust: metadata with 1 or 2 signing certs, +encryption-only cert, pinned cert, fingerprint; MaxIssueDelay/MaxClockSkew, SP base URL, IdP entity ID drawn per run) through ValidateLogoutResponseForm / Redirect / Request(GET|POST) of a foreign-IdP LogoutResponse that starts valid and gets 0-4 defects drawn from {signature: never signed, untrusted key, encryption-only key, untrusted key naming the trusted cert, stripped, moved under a child, field/attribute/child edited after signing, second Signature, corrupted value; destination: absent, empty, ACS URL, other SP, prefix/truncation/query/slash/host variants; issuer: absent, empty, other tenant, near misses, name extended behind an XML comment; freshness: age at MaxIssueDelay -1ms/+1ms/half/x10/far/edge via delivery delay on the bubble clock, IssueInstant absent/empty/garbage, re-dated on the wire; status: absent, empty, Requester, Responder, case/suffix near misses, nested Success; other root element} plus ~10% malformed inputs (rootless, empty, non-XML, truncated XML/base64, wrong encoding for the entry point, 1-3 byte substitutions/deletions/insertions in a valid response, deflate bomb 50-300 MiB); non-trivial = a LogoutResponse document violating at most one clause of the statement (the oracle has to discriminate on exactly that clause); distinct = distinct abstract event log (entry, trust, signer, lexical form, defect labels, violated clauses, expectation, outcome); KeyInfo may carry further certificates beside the signer's (the trusted one beside an untrusted signer's, a stranger's beside the trusted signer's); the host time zone differs per run; an extension element of a foreign namespace that shares a local name the checks look for (Signature holding KeyInfo / KeyValue / the trusted X509Certificate, Issuer holding the right name, Status holding Success, KeyInfo) among the root's children - signed by the IdP with the rest (changes nothing), or added in flight (the signed content is no longer what was signed), often beside a Signature whose KeyInfo names no certificate; a run that does not come back within the driver's wall-clock bound is re-executed alone and reported (no return is not an error)",
 		Gen:  genLogout, Exec: execLogout, Simplify: simplifyLogout,
 		RunsQuick: 6000, RunsThorough: 600000,
 		Assumptions: []string{
@@ -1610,6 +1773,8 @@ func init() {
 			"trusted-key signatures whose KeyInfo names a different certificate and KeyInfo-less signatures under fingerprint-only trust are declared don't-care; under a pinned certificate the metadata's certificates are not trusted",
 			"byte noise on a valid response is checked for totality only (error or valid are both admitted, a panic is a violation): whether a drawn byte position carries meaning is not decidable from the plan",
 			"a deflate bomb counts as inflated when the call allocates at least the inflated size (runtime.MemStats.TotalAlloc)",
+			"an element of another namespace is not the response's Signature, Issuer or Status whatever its local name; signed by the IdP among the root's children it leaves every clause as it is (the profile already expects valid for signatures outside their schema position: well-formed is not schema-valid)",
+			"a call that has not returned after the driver's wall-clock bound (60 s for runs that take milliseconds), again when re-executed alone in a fresh process, is reported as not returning; the bubble's clock cannot observe a spin",
 		},
 		Components: map[string][]string{
 			"real": {"saml.ServiceProvider.ValidateLogoutResponseRequest/Form/Redirect", "validateSignature", "goxmldsig (verification)", "etree", "xml-roundtrip-validator", "saferFlateReader", "encoding/xml unmarshal of saml.LogoutResponse"},
